@@ -83,6 +83,20 @@ fn compartmentalize_map(map: &mut Mapping) {
     }
 }
 
+/// Prepares a configuration value for its use as a property value: nested `<any>` entries
+/// are dropped, since they address components further down the tree and are no data of the
+/// property itself. Returns `None` if the value consisted of nothing but such entries.
+fn without_any(value: &Value) -> Option<Value> {
+    match value {
+        Value::Mapping(map) if map.contains_key(ANY) => {
+            let mut map = map.clone();
+            map.remove(ANY);
+            (!map.is_empty()).then_some(Value::Mapping(map))
+        }
+        other => Some(other.clone()),
+    }
+}
+
 impl Props {
     pub fn update_from(&mut self, base: &Value, path: &[&str]) {
         if path.is_empty() {
@@ -94,7 +108,9 @@ impl Props {
                     if k.contains(ANY) {
                         continue;
                     }
-                    self.set(k.clone(), v.clone());
+                    if let Some(v) = without_any(v) {
+                        self.set(k.clone(), v);
+                    }
                 }
             }
         } else if let Value::Mapping(map) = base {
@@ -125,7 +141,9 @@ impl Props {
                     continue;
                 };
                 let remaining = &matching_key[(key.len() + 1)..];
-                self.set(remaining.to_string(), entry.clone());
+                if let Some(entry) = without_any(entry) {
+                    self.set(remaining.to_string(), entry);
+                }
             }
         }
     }
